@@ -109,11 +109,31 @@ template <> struct Codec<Pod16> {
     static Pod16 gen(vh::Rng& r, const GenCfg& c) { return Pod16{ Codec<double>::gen(r, c), Codec<int>::gen(r, c), Codec<int>::gen(r, c) }; }
     static std::string show(const Pod16& v, bool) { return podHex(v); }
 };
-// time_point travels as time_t (whole seconds)
+// time_point travels as one 8-byte integer: time_t (whole seconds) in the code as it is.  The unit
+// is probed from the real packer once, so the correspondence stays byte-exact should the wire
+// format move to the full millisecond count (the loss of sub-second times is a finding of the
+// property mode, not of the correspondence).
+inline bool timePointPackedAsMs() {
+    static const bool ms = [] {
+        Packer p; Ser s(p);
+        const Opm::time_point tp{ Opm::time_point::duration(1500) };
+        s.pack(tp);
+        std::int64_t v = 0;
+        if (s.buffer().size() == sizeof v) std::memcpy(&v, s.buffer().data(), sizeof v);
+        return v == 1500;
+    }();
+    return ms;
+}
 template <> struct Codec<Opm::time_point> {
     static std::string ty() { return "i8"; }
-    static Opm::time_point gen(vh::Rng& r, const GenCfg&) { return Opm::TimeService::from_time_t(static_cast<std::time_t>(r.below(4000000000ull))); }
-    static std::string show(const Opm::time_point& v, bool) { std::time_t t = Opm::TimeService::to_time_t(v); return podHex(t); }
+    static Opm::time_point gen(vh::Rng& r, const GenCfg&) {
+        const auto secs = Opm::TimeService::from_time_t(static_cast<std::time_t>(r.below(4000000000ull)));
+        return timePointPackedAsMs() ? secs + Opm::time_point::duration(static_cast<std::int64_t>(r.below(1000))) : secs;
+    }
+    static std::string show(const Opm::time_point& v, bool) {
+        if (timePointPackedAsMs()) { std::int64_t t = v.time_since_epoch().count(); return podHex(t); }
+        std::time_t t = Opm::TimeService::to_time_t(v); return podHex(t);
+    }
 };
 // bitset<N> travels as unsigned long long (instantiated in MemPacker.cpp for 3, 4, 10)
 template <std::size_t N> struct Codec<std::bitset<N>> {
